@@ -817,6 +817,21 @@ class CallMixin:
             return z3.Length(it.t), (lambda k: V(ty.elem, it.t[k]))
         if ty is STR:
             return z3.Length(it.t), (lambda k: V(STR, z3.SubString(it.t, k, 1)))
+        if isinstance(ty, TSet) and st is not None and not self.spec_mode:
+            # iterating a set: SOME enumeration of its members - every member once, in an order nothing is known about
+            # (CPython: the order depends on the hash seed).  A fresh sequence per iteration.
+            en = fresh(TSeq(ty.elem), 'set_enum')
+            i, j = z3.Int(fresh_name('i')), z3.Int(fresh_name('j'))
+            y = z3.Const(fresh_name('y'), ty.elem.sort())
+            n = z3.Length(en.t)
+            st.assume(z3.ForAll([i], z3.Implies(z3.And(i >= 0, i < n), z3.Select(it.t, en.t[i])), patterns=[en.t[i]]))
+            st.assume(z3.ForAll([y], z3.Implies(z3.Select(it.t, y), z3.Contains(en.t, z3.Unit(y))), patterns=[z3.Select(it.t, y)]))
+            st.assume(z3.ForAll([i, j], z3.Implies(z3.And(i >= 0, i < j, j < n), en.t[i] != en.t[j])))
+            # the first instances, ground (comparisons with one- and two-element lists need exactly these)
+            st.assume(z3.Implies(n >= 1, z3.Select(it.t, en.t[0])))
+            st.assume(z3.Implies(n >= 2, z3.And(z3.Select(it.t, en.t[1]), en.t[0] != en.t[1])))
+            self.assumptions_used['set-iteration'] = 'iteration over a set yields its members in an unspecified order (hash-seed dependent)'
+            return n, (lambda k: V(ty.elem, en.t[k]))
         if ty is RANGE:
             lo, hi = it.t
             n = z3.If(hi > lo, hi - lo, 0)
